@@ -177,18 +177,21 @@ def h_monopole(name, shape, width, sizemults=None, amp=0.3, centerscale=False):
         if width > 0:
             ob.append(('symbols doubled for the boundary types', tuple(ds.symbols) == tuple(base0.symbols) * 2))
             R0 = min(min(pair) for pair in face_distances(box, li, [0.0, 0.0, 0.0]))
-            eps = 1e-7
+            eps = 1e-6
+            # strict comparisons (the tolerant lt() of the concrete replay must not be used in an antecedent); points
+            # within eps of the region surface are exempt
+            slt = (lambda a_, b_: a_ < b_) if sx.symbolic_mode() else (lambda a_, b_: float(a_) < float(b_))
             for i in range(n):
                 p = [P[i, j] for j in range(3)]
                 t = ds.atoms.atype[i]
                 if shape == 'box':
                     margins = [x - width for pair in face_distances(box, li, p) for x in pair]
-                    inside = band(*[lt(eps, m_) for m_ in margins]); outside = bor(*[lt(m_, -eps) for m_ in margins])
+                    inside = band(*[slt(eps, m_) for m_ in margins]); outside = bor(*[slt(m_, -eps) for m_ in margins])
                 else:
                     ax = sum(p[k] * float(xi[k]) for k in range(3))
                     r2 = sum(p[k] * p[k] for k in range(3)) - ax * ax
                     R = R0 - width
-                    inside = lt(r2, (R - eps) ** 2); outside = lt((R + eps) ** 2, r2)
+                    inside = slt(r2, (R - eps) ** 2); outside = slt((R + eps) ** 2, r2)
                 ob.append((f'atom {i}: re-typed as boundary exactly when its displaced position is outside the {shape} region of width {width}',
                            band(implies(inside, eq(t, T0[i])), implies(outside, eq(t, T0[i] + nty)), bor(eq(t, T0[i]), eq(t, T0[i] + nty)))))
         else:
